@@ -16,6 +16,7 @@ import (
 	"testing"
 
 	sdkmath "cosmossdk.io/math"
+	"github.com/cometbft/cometbft/crypto/tmhash"
 	codectypes "github.com/cosmos/cosmos-sdk/codec/types"
 	sdk "github.com/cosmos/cosmos-sdk/types"
 	distrtypes "github.com/cosmos/cosmos-sdk/x/distribution/types"
@@ -408,7 +409,73 @@ func (e *env) applyDigest(c types.EthereumClaim) (dig string) {
 		cls = "err"
 	}
 	after := bal(ctx)
-	return fmt.Sprintf("%s|%s->%s|lic=%v", cls, before, after, *e.calls)
+	return fmt.Sprintf("%s|%s->%s|lic=%v", cls, before, after, *e.calls) + "|tally:" + e.tallyDigest(c)
+}
+
+// storeImage: every key of the module's raw store outside the attestation entries, with a hash of its value.
+func (e *env) storeImage(ctx sdk.Context) map[string]string {
+	st := e.k.VerifC11RawStore(ctx)
+	it := st.Iterator(nil, nil)
+	defer it.Close()
+	out := map[string]string{}
+	for ; it.Valid(); it.Next() {
+		k := it.Key()
+		if bytes.Contains(k, types.OracleAttestationKey) {
+			continue // attestation entries hold the body itself (with the voter's identity)
+		}
+		out[string(k)] = fmt.Sprintf("%x", tmhash.Sum(it.Value()))[:12]
+	}
+	return out
+}
+
+// tallyDigest applies the body the way the end blocker does once it has the votes — the real TryAttestation on an
+// attestation holding the body with the votes of all five validators, in a discarded cache context — and projects
+// EVERY chain-level effect: the oracle cursor (last observed skyway nonce, last observed remote height), bank supply /
+// receiver / community pool, licence calls, and every other key of the module store that was written or deleted.
+func (e *env) tallyDigest(c types.EthereumClaim) (dig string) {
+	ctx, _ := e.ctx.CacheContext()
+	*e.calls = (*e.calls)[:0]
+	defer func() {
+		if r := recover(); r != nil {
+			dig = "panic"
+		}
+	}()
+	chain := c.GetChainReferenceId()
+	any, err := codectypes.NewAnyWithValue(c.(proto.Message))
+	if err != nil {
+		return "pack-error"
+	}
+	att := &types.Attestation{Claim: any, Height: uint64(ctx.BlockHeight())}
+	for _, v := range keeper.ValAddrs {
+		att.Votes = append(att.Votes, v.String())
+	}
+	img0 := e.storeImage(ctx)
+	supply0 := e.in.BankKeeper.GetSupply(ctx, "ugrain").Amount
+	pool0 := e.in.BankKeeper.GetBalance(ctx, e.in.AccountKeeper.GetModuleAddress(distrtypes.ModuleName), "ugrain").Amount
+	terr := e.k.TryAttestation(ctx, att)
+	cls := "ok"
+	if terr != nil {
+		cls = "err"
+	}
+	last, _ := e.k.GetLastObservedSkywayNonce(ctx, chain)
+	h := e.k.GetLastObservedEthereumBlockHeight(ctx, chain)
+	img1 := e.storeImage(ctx)
+	var changed []string
+	for k, v := range img1 {
+		if img0[k] != v {
+			changed = append(changed, fmt.Sprintf("%x=%s", k, v))
+		}
+	}
+	for k := range img0 {
+		if _, ok := img1[k]; !ok {
+			changed = append(changed, fmt.Sprintf("%x=deleted", k))
+		}
+	}
+	sort.Strings(changed)
+	sd := e.in.BankKeeper.GetSupply(ctx, "ugrain").Amount.Sub(supply0)
+	pd := e.in.BankKeeper.GetBalance(ctx, e.in.AccountKeeper.GetModuleAddress(distrtypes.ModuleName), "ugrain").Amount.Sub(pool0)
+	return fmt.Sprintf("%s,cursor=%d,remote-height=%d,supply%+d,pool%+d,lic=%v,store[%d]=%x", cls, last, h.EthereumBlockHeight, sd.Int64(), pd.Int64(), *e.calls,
+		len(changed), tmhash.Sum([]byte(strings.Join(changed, ";")))[:6])
 }
 
 // tally mimics x/skyway attestationTally for one chain with the exported keeper calls.
